@@ -18,7 +18,8 @@ pub fn cfg_from(b: &[u8], extreme: bool) -> Cfg {
     let width = if b0 < 128 { WIDTHS[(b0 as usize) % WIDTHS.len()] } else { (b0 - 128) as usize };
     let tab = if extreme { (b1 % 65) as usize } else { 1 + (b1 % 8) as usize };
     let width = if extreme && b2 & 2 != 0 { usize::MAX / 2 } else { width };
-    Cfg { width, tab, reorder: b2 & 1 != 0 }
+    let blank = [2, 2, 2, 2, 0, 1, 3, HUGE][((b2 >> 2) & 7) as usize];
+    Cfg { width, tab, reorder: b2 & 1 != 0, blank }
 }
 
 fn floor_cb(s: &str, mut i: usize) -> usize {
